@@ -94,3 +94,11 @@ Proof. exact NcExtraLemmas.next_request_fresh_id. Qed.
 
 Print Assumptions C05_rpc_timeout.
 Print Assumptions C05_rpc_next_request_fresh_id.
+
+(* ---- timeout precedence is the source's: Channel.GetTimeout translated on this run ---- *)
+From Scrapli Require Import DecideLang GeneratedSkel Decide.
+
+Theorem C05_get_timeout_is_source : forall ops t, gt_run ops t = Some (get_timeout ops t).
+Proof. exact get_timeout_is_source. Qed.
+
+Print Assumptions C05_get_timeout_is_source.
